@@ -24,6 +24,7 @@ MC_VOps == {"+", "*", "-"}
 MC_Senses == {}
 MC_Stages == <<>>
 MC_FinalEn == {}
+MC_SingValues == {}
 MC_Want == {"V"}
 MC_WantD == {"D"}
 MC_WantDV == {"D", "V"}
